@@ -52,12 +52,30 @@ def rd_tempo(e):
 _DURPOOL = {}
 
 
+class TickDuration(cp.abc.Duration):
+    """a user-defined duration (the documented extension point: only `beat_count` has to be provided); its constructor
+    takes ticks, not beats, so code that rebuilds durations with `type(d)(beats)` instead of going through the property is seen"""
+
+    def __init__(self, tick_count):
+        self._tick_count = int(tick_count)
+
+    @property
+    def beat_count(self):
+        return round(self._tick_count / TICK, 10)
+
+    @beat_count.setter
+    def beat_count(self, beat_count):
+        self._tick_count = round(float(beat_count) * TICK)
+
+
 def build(x):
     if x[0] == "L":
         d, l = int(x[1]), int(x[2])
         # every fifth label is a RatioDuration leaf, the others DirectDuration leaves
         dur = Fraction(d, TICK) if l % 5 == 2 else d / TICK
-        if l % 3 == 0:
+        if l % 7 == 4 and l % 3 != 0 and l < 1000:
+            dur = TickDuration(d)          # every seventh label: a user-defined Duration class
+        elif l % 3 == 0:
             # leaves may legitimately share one Duration object (a note-value constant reused across notes):
             # every third label takes its duration object from a per-case pool keyed by the value
             key = (d, l % 5 == 2)
